@@ -498,7 +498,7 @@ func (bridge *ExprBridge) PreprocessLikeExpression(expression string) (string, e
 	// 使用正则表达式匹配LIKE模式
 	// 匹配: field LIKE 'pattern' 或 `field` LIKE 'pattern' (允许空模式)
 	// 支持反引号标识符和普通标识符
-	likePattern := `((?:` + "`" + `[^` + "`" + `]+` + "`" + `|\w+)(?:\.(?:` + "`" + `[^` + "`" + `]+` + "`" + `|\w+))*)\s+LIKE\s+'([^']*)'`
+	likePattern := `((?:` + "`" + `[^` + "`" + `]+` + "`" + `|\w+)(?:\.(?:` + "`" + `[^` + "`" + `]+` + "`" + `|\w+))*)\s+(?i:LIKE)\s+'([^']*)'`
 	re, err := regexp.Compile(likePattern)
 	if err != nil {
 		return expression, err
@@ -529,7 +529,7 @@ func (bridge *ExprBridge) PreprocessLikeExpression(expression string) (string, e
 // PreprocessIsNullExpression 预处理IS NULL和IS NOT NULL表达式，转换为expr-lang可理解的表达式
 func (bridge *ExprBridge) PreprocessIsNullExpression(expression string) (string, error) {
 	// 匹配复杂表达式的 IS NOT NULL 模式 (如函数调用)
-	complexNotNullPattern := `([A-Za-z_][A-Za-z0-9_]*\s*\([^)]*\))\s+IS\s+NOT\s+NULL`
+	complexNotNullPattern := `([A-Za-z_][A-Za-z0-9_]*\s*\([^)]*\))\s+(?i:IS\s+NOT\s+NULL)`
 	reComplexNotNull, err := regexp.Compile(complexNotNullPattern)
 	if err != nil {
 		return expression, err
@@ -539,7 +539,7 @@ func (bridge *ExprBridge) PreprocessIsNullExpression(expression string) (string,
 	result := reComplexNotNull.ReplaceAllString(expression, "is_not_null($1)")
 
 	// 匹配复杂表达式的 IS NULL 模式
-	complexNullPattern := `([A-Za-z_][A-Za-z0-9_]*\s*\([^)]*\))\s+IS\s+NULL`
+	complexNullPattern := `([A-Za-z_][A-Za-z0-9_]*\s*\([^)]*\))\s+(?i:IS\s+NULL)`
 	reComplexNull, err := regexp.Compile(complexNullPattern)
 	if err != nil {
 		return result, err
@@ -549,7 +549,7 @@ func (bridge *ExprBridge) PreprocessIsNullExpression(expression string) (string,
 	result = reComplexNull.ReplaceAllString(result, "is_null($1)")
 
 	// 匹配简单字段的 IS NOT NULL 模式 (必须在复杂表达式之后处理)
-	isNotNullPattern := `(\w+(?:\.\w+)*)\s+IS\s+NOT\s+NULL`
+	isNotNullPattern := `(\w+(?:\.\w+)*)\s+(?i:IS\s+NOT\s+NULL)`
 	reNotNull, err := regexp.Compile(isNotNullPattern)
 	if err != nil {
 		return result, err
@@ -559,7 +559,7 @@ func (bridge *ExprBridge) PreprocessIsNullExpression(expression string) (string,
 	result = reNotNull.ReplaceAllString(result, "$1 != nil")
 
 	// 匹配简单字段的 IS NULL 模式
-	isNullPattern := `(\w+(?:\.\w+)*)\s+IS\s+NULL`
+	isNullPattern := `(\w+(?:\.\w+)*)\s+(?i:IS\s+NULL)`
 	reNull, err := regexp.Compile(isNullPattern)
 	if err != nil {
 		return result, err
